@@ -194,7 +194,8 @@ def gen_plan(seed, tier):
         else:
             parent = d.below(n_worlds)
             fresh += 1
-            ops.append({'op': 'scale', 'parent': parent, 'factor': d.pick([0.1, 0.25, 0.5, 0.9, 1.0, 1.1, 2.0, 3.7, 10.0]),
+            factor = d.pick([0.1, 0.25, 0.5, 0.9, 1.0, 1.1, 2.0, 3.7, 10.0]) if d.chance(2, 3) else round(10 ** d.uniform(-1.0, 1.0), 6)
+            ops.append({'op': 'scale', 'parent': parent, 'factor': factor,
                         'new_name': d.weighted([('none', 3), ('fresh', 1), ('parent_name', 1)]), 'tag': fresh})
         n_worlds += 1
     return {'engine': 'worldchain', 'seed': seed, 'ops': ops}
